@@ -32,7 +32,7 @@ def text_of(t):
     return t
 
 
-def build(rng, lazy):
+def build(rng, lazy, corpus=None):
     import numpy as np
     from pydap.handlers.lib import IterData
     from pydap.model import BaseType, DatasetType, GridType, SequenceType, StructureType
@@ -102,6 +102,15 @@ def build(rng, lazy):
             return float(v) + (rng.choice([0, 0, 4e-6, -4e-6]) if v else 0.0)
         return v
     rows = [tuple(cell() for _ in cols) for _ in range(n)]
+    if corpus == "near":
+        # corpus: float cells a few parts in 10^7 away from the constants of degenerate intervals
+        cols, floaty = [("lon", "X"), ("t", None), ("lat", "Y"), ("depth", "Z")], True
+        rows = [(10.000004, 1.0, 15.0, 5.0), (10.0, 2.0, 15.000004, 5.0), (9.999996, 3.0, 14.999996, 5.0), (10.0, 4.0, 15.0, 5.000004),
+                (20.0, 5.0, 15.0, 5.0), (10.0, 6.0, 15.0, 5.0)]
+    elif corpus == "two":
+        # corpus: one axis carried by two columns that disagree about some records
+        cols, floaty = [("lon2", "x"), ("lon", "X"), ("lat", "Y"), ("depth", "Z"), ("t", None)], False
+        rows = [(10, 10, 15, 5, 1), (10, 30, 15, 5, 2), (30, 10, 15, 5, 3), (30, 30, 15, 5, 4), (10, 10, 40, 5, 5)]
     loc = SequenceType("loc")
     for c, axis in cols:
         loc[c] = BaseType(c, attributes={"axis": axis} if axis else {})
@@ -180,7 +189,7 @@ def main():
     n_ds = 25 if T == "quick" else 300
     for i in range(n_ds):
         lazy = rng.random() < 0.4
-        ds, arrays, (ga, gd, gmaps), (cols, rows) = build(rng, lazy)
+        ds, arrays, (ga, gd, gmaps), (cols, rows) = build(rng, lazy, corpus={0: "near", 1: "two"}.get(i))
         stats["datasets"] += 1
         gz = rng.random() < 0.3            # the handler may compress its responses (a deployment setting)
         stats["gzip_handlers"] = stats.get("gzip_handlers", 0) + gz
@@ -350,6 +359,9 @@ def main():
                 if bi == 0 and ax in "XY":
                     lo, hi = {"X": (0, 360), "Y": (-90, 90)}[ax]      # the whole globe - which some records may lie beyond
                 b[ax] = (lo, hi)
+            if i < 2 and bi in (1, 2, 3):
+                # the corpus tables are asked with intervals that are degenerate on one axis
+                b = {"X": (10, 10) if bi == 1 else (0, 30), "Y": (15, 15) if bi == 2 else (0, 30), "Z": (5, 5) if bi == 3 else (0, 30)}
             stats["bounds_calls"] += 1
             stats["lazy_bounds"] += lazy
             stats["degenerate_bounds"] += any(lo == hi for lo, hi in b.values())
